@@ -14,9 +14,10 @@ VERIF = os.path.dirname(os.path.dirname(os.path.abspath(__file__)))
 COQ = os.path.join(VERIF, "coq")
 RUN = os.path.join(COQ, "_run")
 BUILD = os.path.join(VERIF, "_build")
-BIN = os.path.join(BUILD, "bin")
 HARNESS = os.path.join(VERIF, "harness")
-REPO = "/repo"
+REPO = os.environ.get("VERIF_REPO", "/repo")   # VERIF_REPO: run against a scratch worktree (mutation testing)
+_TAG = "" if REPO == "/repo" else "_" + hashlib.sha1(REPO.encode()).hexdigest()[:8]
+BIN = os.path.join(BUILD, "bin" + _TAG)
 
 GOENV = dict(os.environ, GOFLAGS="-mod=mod", GOPROXY="off", GOWORK="off", GOTOOLCHAIN="local",
              GOSUMDB="off")
@@ -82,6 +83,62 @@ def coq_build(targets=None, timeout=3000, clean=False):
     os.makedirs(BUILD, exist_ok=True)
     open(os.path.join(BUILD, "coq_build.log"), "w").write(log)
     return rc == 0, log
+
+
+class CoqLock:
+    def __enter__(self):
+        import fcntl
+        os.makedirs(BUILD, exist_ok=True)
+        self.f = open(os.path.join(BUILD, "coq.lock"), "w")
+        fcntl.flock(self.f, fcntl.LOCK_EX)
+    def __exit__(self, *a):
+        import fcntl
+        fcntl.flock(self.f, fcntl.LOCK_UN); self.f.close()
+
+
+def direct_deps(f):
+    rc, out, err = sh(["coqdep", "-Q", ".", "PGV", f], cwd=COQ)
+    deps = []
+    first = out.split("\n")[0] if out else ""
+    if ":" in first:
+        for m in re.finditer(r"(\S+)\.vo\b", first.split(":", 1)[1]):
+            g = os.path.normpath(m.group(1) + ".v")
+            if os.path.exists(os.path.join(COQ, g)) and g != f:
+                deps.append(g)
+    return sorted(set(deps))
+
+
+def coq_build_closure(vfile, timeout=3000):
+    """compile (full .vo, coqc) vfile and its in-project dependencies, only where stale. returns (ok, log).
+    Used by the per-property checks so that one property never depends on another property's files."""
+    with CoqLock():
+        order, seen, dd = [], set(), {}
+        def visit(f):
+            if f in seen:
+                return
+            seen.add(f)
+            dd[f] = direct_deps(f)
+            for g in dd[f]:
+                visit(g)
+            order.append(f)
+        visit(vfile)
+        log = ""
+        rebuilt = set()
+        t0 = time.time()
+        for f in order:
+            vo = os.path.join(COQ, f + "o")
+            stale = (not os.path.exists(vo)) or os.path.getmtime(vo) < os.path.getmtime(os.path.join(COQ, f)) \
+                or any(g in rebuilt or os.path.getmtime(os.path.join(COQ, g + "o")) > os.path.getmtime(vo) for g in dd[f])
+            if not stale:
+                continue
+            rc, out, err = sh(["coqc", "-Q", ".", "PGV", "-w", "-all", f], cwd=COQ, timeout=max(60, timeout - (time.time() - t0)))
+            log += "coqc %s -> rc %d\n%s%s" % (f, rc, out, err)
+            if rc != 0:
+                if os.path.exists(vo):
+                    os.remove(vo)
+                return False, log
+            rebuilt.add(f)
+        return True, log
 
 
 def coq_deps_of(vfile):
@@ -184,13 +241,26 @@ def print_assumptions(prop_vfile):
 
 # ---------------------------------------------------------------- Go harness
 
+def harness_dir():
+    """the harness module; when VERIF_REPO points elsewhere, a copy whose replace directives point there"""
+    if REPO == "/repo":
+        return HARNESS
+    d = os.path.join(BUILD, "harness" + _TAG)
+    if os.path.exists(d):
+        shutil.rmtree(d)
+    shutil.copytree(HARNESS, d)
+    gm = open(os.path.join(d, "go.mod")).read().replace("=> /repo/", "=> " + REPO + "/")
+    open(os.path.join(d, "go.mod"), "w").write(gm)
+    return d
+
+
 def go_build(cmd_name, timeout=1200):
     os.makedirs(BIN, exist_ok=True)
     gosum = os.path.join(HARNESS, "go.sum")
     if not os.path.exists(gosum):
         make_gosum()
     rc, out, err = sh(["go", "build", "-tags", "verif", "-o", os.path.join(BIN, cmd_name), "./cmd/" + cmd_name],
-                      cwd=HARNESS, env=GOENV, timeout=timeout)
+                      cwd=harness_dir(), env=GOENV, timeout=timeout)
     return rc == 0, out + err
 
 
@@ -266,7 +336,8 @@ def parse_nat_list(out, name):
 # ---------------------------------------------------------------- findings / evidence / report
 
 def known_findings(prop):
-    p = os.path.join(VERIF, "known_findings.json")
+    """known_findings/<prop>.json : {"known": [{property, signature, what, ...}], "fixed": [...]}; never written at run time"""
+    p = os.path.join(VERIF, "known_findings", prop + ".json")
     if not os.path.exists(p):
         return [], []
     d = json.load(open(p))
@@ -293,7 +364,7 @@ class Ctx:
 
 
 def write_replay(prop, kind, payload):
-    d = os.path.join(VERIF, "replays", prop)
+    d = os.path.join(VERIF, "replays" if REPO == "/repo" else "_build/replays" + _TAG, prop)
     os.makedirs(d, exist_ok=True)
     txt = json.dumps(payload, indent=1, sort_keys=True, default=str)
     h = hashlib.sha1(txt.encode()).hexdigest()[:12]
@@ -303,7 +374,8 @@ def write_replay(prop, kind, payload):
 
 
 def write_evidence(prop, tier, seed, level, coverage, assumptions, wall, violations):
-    os.makedirs(os.path.join(VERIF, "evidence"), exist_ok=True)
+    evdir = os.path.join(VERIF, "evidence") if REPO == "/repo" else os.path.join(BUILD, "evidence" + _TAG)
+    os.makedirs(evdir, exist_ok=True)
     ev = {"property_id": prop, "tier": tier, "seed": seed, "level": level, "coverage": coverage,
           "assumptions": assumptions, "wall_s": round(wall, 2), "violations": violations}
-    open(os.path.join(VERIF, "evidence", prop + ".json"), "w").write(json.dumps(ev, indent=1, default=str) + "\n")
+    open(os.path.join(evdir, prop + ".json"), "w").write(json.dumps(ev, indent=1, default=str) + "\n")
